@@ -52,6 +52,7 @@ type AtReturn struct {
 
 type LoopContract struct {
 	Ordinal    int
+	Exits      []Clause // asserted on every edge leaving the loop
 	Invariants []Clause
 	Modifies   []Expr // extra heap locations havocked (besides syntactic stores)
 	Decreases  *Clause
@@ -253,6 +254,15 @@ func (cs *ContractSet) LoadContractFile(path, pkgPath string) error {
 				return err
 			}
 			cur.AssumedEnsures = append(cur.AssumedEnsures, c)
+		case "exit":
+			c, err := mkClause()
+			if err != nil {
+				return err
+			}
+			if curLoop == nil {
+				return fmt.Errorf("%s:%d: exit outside loop", path, ln)
+			}
+			curLoop.Exits = append(curLoop.Exits, c)
 		case "requires", "ensures", "invariant", "assume", "lemma", "decreases":
 			c, err := mkClause()
 			if err != nil {
